@@ -68,7 +68,9 @@ def conanOps : ConanRange.ConanOps Conan.Raw where
     | .error (.other n) => .error (.other n)
   str := Conan.str
   mainLen v := v.items.length
-  firstNonZero v := v.items.findIdx (fun it => it != .int 0)
+  firstNonZero v :=
+    let i := v.items.findIdx (fun it => it != .int 0)
+    if i = v.items.length then v.items.length - 1 else i
   upperBound v i :=
     match Conan.upperBound v i with
     | .ok u => .ok (Conan.str u)
@@ -88,12 +90,12 @@ open MavenConan in
 def mavenConanCmd : List String → Option String
   | ["native", "maven", h] => some (render (MavenRange.fromNative mavenMk mavenVcmp (unhex h)))
   | ["native", "nuget", h] =>
-      some (render (MavenRange.fromNative nugetMk mavenVcmp (unhex h) >>= MavenRange.nugetSortGuard))
+      some (render (MavenRange.fromNative nugetMk mavenVcmp (unhex h)))
   | ["native", "conan", h] => some (render (ConanRange.fromNative conanOps (unhex h)))
   | "natives" :: "maven" :: hs =>
-      some (render (MavenRange.fromNatives .ok mavenMk mavenVcmp (hs.map unhex)))
+      some (render (MavenRange.fromNatives mavenMk mavenVcmp (hs.map unhex)))
   | "natives" :: "nuget" :: hs =>
-      some (render (MavenRange.fromNatives MavenRange.nugetSortGuard nugetMk mavenVcmp (hs.map unhex)))
+      some (render (MavenRange.fromNatives nugetMk mavenVcmp (hs.map unhex)))
   | ["mavensat", hr, hv] => some (renderBool (MavenRange.sat mavenVcmp (unhex hr) (unhex hv)))
   | ["conansat", hr, hv] =>
       some (renderBool
